@@ -914,3 +914,33 @@ func objPtr(v value) *value {
 	}
 	return nil
 }
+
+func init() {
+	externals["math.IsInf"] = func(fr *frame, a []value) value {
+		if f, ok := a[0].(symF); ok {
+			t := f.t
+			if f.w32 != "" {
+				t = f.w32 // widening is exact: float64(x32) is infinite iff x32 is
+			}
+			sign, ok := a[1].(int)
+			if !ok {
+				panic(pathAbort{"unsupported: math.IsInf with a symbolic sign"})
+			}
+			switch {
+			case sign > 0:
+				return boolVal("(and (fp.isInfinite " + t + ") (fp.isPositive " + t + "))")
+			case sign < 0:
+				return boolVal("(and (fp.isInfinite " + t + ") (fp.isNegative " + t + "))")
+			}
+			return boolVal("(fp.isInfinite " + t + ")")
+		}
+		return math.IsInf(a[0].(float64), a[1].(int))
+	}
+	externals["math.IsNaN"] = func(fr *frame, a []value) value {
+		if f, ok := a[0].(symF); ok {
+			return boolVal("(fp.isNaN " + f.t + ")")
+		}
+		x := a[0].(float64)
+		return x != x
+	}
+}
